@@ -1,11 +1,13 @@
 import Chewing.Model.Basic
 import Chewing.Gen.Estimate
 /-!
-Model of `src/editor/estimate.rs` (`LaxUserFreqEstimate`): `estimate` exactly as coded, with every
-fixed-width operation guarded (`u64` time subtraction, `u32` frequency arithmetic).  The harness is built
-with overflow checks (debug profile), so a failing guard is `Outcome.panic`; a release build would
-wrap instead (outside the model, see `estimate_no_panic` for the exact precondition under which both
-profiles agree).  All numeric constants come from `Gen/Estimate.lean` (regenerated from the source).
+Model of `src/editor/estimate.rs` (`LaxUserFreqEstimate`): `estimate` exactly as coded, with every plain
+fixed-width operation guarded (`u32` frequency subtractions) and every saturating one modelled as such
+(`satSub` for the `u64` time difference, `satAdd32` for `phrase.freq().saturating_add(delta)` — the repair of
+F40 and of F07's "stored time in the future").  The harness is built with overflow checks (debug profile), so a
+failing guard is `Outcome.panic`; a release build would wrap instead (outside the model, see
+`estimate_no_panic` for the exact precondition under which both profiles agree).  All numeric constants come
+from `Gen/Estimate.lean` (regenerated from the source; the translator also pins which operations saturate).
 -/
 namespace Chewing.Learn
 open Gen.Est
@@ -13,18 +15,24 @@ open Gen.Est
 def u32Max : Nat := 4294967295
 def u64Max : Nat := 18446744073709551615
 
+/-- `u32::saturating_add` -/
+def satAdd32 (a b : Nat) : Nat := min (a + b) u32Max
+
+/-- `u64::saturating_sub` on values that are in range: truncated subtraction -/
+def satSub (a b : Nat) : Nat := a - b
+
 /-- `((max_freq - orig_freq) / div + plus).min(inc)` resp. `.max(inc)` of the two rising bands -/
 def risingDelta (div plus inc freq orig maxF : Nat) : Nat :=
   let base := (maxF - orig) / div + plus
   if freq ≥ maxF then min base inc else max base inc
 
-/-- one rising band: guards `max_freq - orig_freq` and `phrase.freq() + delta` (`u32`) -/
+/-- one rising band: guards `max_freq - orig_freq` (`u32`); `phrase.freq().saturating_add(delta).min(MAX_USER_FREQ)`
+    cannot fail -/
 def risingBand (div plus inc freq orig maxF : Nat) : Outcome Nat :=
   if maxF < orig then .panic "estimate: max_freq - orig_freq"
   else
     let delta := risingDelta div plus inc freq orig maxF
-    if freq + delta > u32Max then .panic "estimate: freq + delta"
-    else .ok (min (freq + delta) maxUserFreq)
+    .ok (min (satAdd32 freq delta) maxUserFreq)
 
 /-- the long-gap band: guards `phrase.freq() - orig_freq` and `phrase.freq() - delta` (`u32`) -/
 def decayBand (freq orig : Nat) : Outcome Nat :=
@@ -37,13 +45,10 @@ def decayBand (freq orig : Nat) : Outcome Nat :=
 /-- `LaxUserFreqEstimate::estimate(&self, phrase, orig_freq, max_freq)` with `self.lifetime = lifetime`,
     `phrase.freq() = freq`, `phrase.last_used() = lastUsed` -/
 def estimate (lifetime freq : Nat) (lastUsed : Option Nat) (orig maxF : Nat) : Outcome Nat :=
-  let lu := lastUsed.getD lifetime
-  if lifetime < lu then .panic "estimate: lifetime - last_used"
-  else
-    let dt := lifetime - lu
-    if dt < shortBand then risingBand shortDiv shortPlus shortInc freq orig maxF
-    else if dt < mediumBand then risingBand mediumDiv mediumPlus mediumInc freq orig maxF
-    else decayBand freq orig
+  let dt := satSub lifetime (lastUsed.getD lifetime)
+  if dt < shortBand then risingBand shortDiv shortPlus shortInc freq orig maxF
+  else if dt < mediumBand then risingBand mediumDiv mediumPlus mediumInc freq orig maxF
+  else decayBand freq orig
 
 /-- `tick` (`u64` increment) -/
 def tick (lifetime : Nat) : Outcome Nat :=
@@ -52,13 +57,11 @@ def tick (lifetime : Nat) : Outcome Nat :=
 /-- `LaxUserFreqEstimate::max_from`: the largest stored time, 0 for an empty dictionary -/
 def maxFrom (times : List Nat) : Nat := times.foldl max 0
 
-/-- the exact precondition of `estimate` (see `Props/C08.estimate_no_panic`) -/
+/-- the exact precondition of `estimate` (see `Props/C08.estimate_no_panic`): only the plain `u32` subtractions
+    are left — a stored time in the future and a stored frequency next to `u32::MAX` are harmless -/
 def EstimatePre (lifetime freq : Nat) (lastUsed : Option Nat) (orig maxF : Nat) : Prop :=
-  let lu := lastUsed.getD lifetime
-  lu ≤ lifetime ∧
-  (lifetime - lu < shortBand → orig ≤ maxF ∧ freq + risingDelta shortDiv shortPlus shortInc freq orig maxF ≤ u32Max) ∧
-  (shortBand ≤ lifetime - lu → lifetime - lu < mediumBand →
-      orig ≤ maxF ∧ freq + risingDelta mediumDiv mediumPlus mediumInc freq orig maxF ≤ u32Max) ∧
-  (shortBand ≤ lifetime - lu → mediumBand ≤ lifetime - lu → orig ≤ freq ∧ max ((freq - orig) / longDiv) longDec ≤ freq)
+  let dt := satSub lifetime (lastUsed.getD lifetime)
+  (dt < shortBand ∨ dt < mediumBand → orig ≤ maxF) ∧
+  (shortBand ≤ dt → mediumBand ≤ dt → orig ≤ freq ∧ max ((freq - orig) / longDiv) longDec ≤ freq)
 
 end Chewing.Learn
